@@ -123,6 +123,21 @@ def decode_scalar(bits, size, ty):
     return bits
 
 
+INT_BITS = {"i8": 8, "i16": 16, "i32": 32, "i64": 64, "i128": 128, "isize": 64, "u8": 8, "u16": 16, "u32": 32, "u64": 64, "u128": 128, "usize": 64}
+
+
+def wrap_int(v, ty):
+    """Wrap a mathematical integer into the range of a fixed-width primitive type."""
+    n = ty.get("name") if ty and ty.get("k") == "prim" else None
+    if n not in INT_BITS:
+        return v
+    b = INT_BITS[n]
+    v &= (1 << b) - 1
+    if n[0] == "i" and v >= 1 << (b - 1):
+        v -= 1 << b
+    return v
+
+
 def is_float_ty(t):
     return t is not None and t.get("k") == "prim" and t["name"] in ("f32", "f64")
 
@@ -693,9 +708,10 @@ class Sim:
                 q = abs(a.val) // abs(b.val)
                 q = q if (a.val >= 0) == (b.val > 0) else -q
                 r = Const(q if base == "Div" else a.val - q * b.val, ty_a)
-            elif base in ("BitAnd", "BitOr", "BitXor", "Shl", "Shr") and isinstance(a, Const) and isinstance(b, Const):
-                r = Const({"BitAnd": a.val & b.val, "BitOr": a.val | b.val, "BitXor": a.val ^ b.val,
-                           "Shl": a.val << b.val, "Shr": a.val >> b.val}[base], ty_a)
+            elif base in ("BitAnd", "BitOr", "BitXor", "Shl", "Shr") and isinstance(a, Const) and isinstance(b, Const) and \
+                    (base not in ("Shl", "Shr") or 0 <= b.val < 128):
+                r = Const(wrap_int({"BitAnd": lambda: a.val & b.val, "BitOr": lambda: a.val | b.val, "BitXor": lambda: a.val ^ b.val,
+                                    "Shl": lambda: a.val << b.val, "Shr": lambda: a.val >> b.val}[base](), ty_a), ty_a)
             else:
                 r = Term("I" + base, (a, b), ty_a)
         if op.endswith("WithOverflow"):
@@ -774,7 +790,7 @@ class Sim:
                 return v
             if kind == "IntToInt":
                 if isinstance(v, Const) and isinstance(v.val, (int, bool)):
-                    return Const(int(v.val), tty)
+                    return Const(wrap_int(int(v.val), tty), tty)
                 return v if isinstance(v, (Sym, Lin)) else Term("Cast:IntToInt", (v,), tty)
             if kind == "Transmute":
                 if isinstance(v, Ref):
